@@ -102,6 +102,9 @@ def solve(A: LinearOperator, B: torch.Tensor, E: Union[torch.Tensor, None] = Non
         else:
             is_hermit = A.is_hermitian and (M is None or M.is_hermitian)
             method = "cg" if is_hermit else "bicgstab"
+    elif isinstance(method, str):
+        # method names are case-insensitive (as in get_method)
+        method = method.lower()
 
     if method == "exactsolve":
         return exactsolve(A, B, E, M)
